@@ -18,7 +18,7 @@ RULE = ("one Hypothesis search per configuration: stabilizer (constructed member
         "1 - 1e-3) and the readout circuit maps >= 1 unsigned group element to a negative Z-type operator; distinct by "
         "(n, connectivity, generators, state). Oracle: exactly 2^n keys = unsigned span of the given generators (own "
         "enumeration), value <psi|P|psi> / Tr(rho P) by dense algebra, identity -> 1.")
-ASSUMPTIONS = ["dense simulator", "own span enumeration", "mixed states injected behind an empty preparation circuit"]
+ASSUMPTIONS = ["results are handed over as the duck-typed FakeResult or as a genuine qiskit.result.Result (Result.from_dict, headers with circuit names), alternating; the wanted experiment sits at index 0..2 of a job with decoy experiments of the same circuit name", "dense simulator", "own span enumeration", "mixed states injected behind an empty preparation circuit"]
 BUDGET = {"quick": 400, "thorough": 3000}
 TOL = 1e-9
 
@@ -44,7 +44,9 @@ def check_measure(case):
         else:
             pw = [(w, dense.run(mops, n, psi=psi)) for (w, psi) in comps]
         counts = tomo.rescale_counts(tomo.exact_counts(pw, n, rng), case.get("zero_seed", 0) // 2)
-        fitter = L.tomo.StabilizerMeasurementFitter(tomo.FakeResult([counts], single_as_dict=bool(case.get("zero_seed", 0) % 2)), qc)
+        result, k = tomo.job_with_decoys(counts, qc, case.get("zero_seed", 0))
+        info["job"] = f"{type(result).__name__}:experiment {k}"
+        fitter = L.tomo.StabilizerMeasurementFitter(result, qc) if k == 0 and case.get("zero_seed", 0) % 5 else L.tomo.StabilizerMeasurementFitter(result, qc, result_index=k)
         ev_raw = fitter.expectation_values()
     except dense.UnknownGate as e:
         raise fw.HarnessError(f"uninterpretable gate {e}")
@@ -113,7 +115,8 @@ def classify_h(case):
     nt = (case["n"], case["connectivity"], tuple(case["strings"]), repr(case["components"])) if (info["neg_image"] and info["non_eigen"]) else None
     gens = [pauli.parse(s)[:3] for s in case["strings"]]
     return nt, {"config": f"{case['n']}-{case['connectivity']}", "state_kind": "pure" if len(case["components"]) == 1 else "mixed",
-                "sign_weight": sum(g[0] for g in gens), "entangled_class": lc.orbit_of(gens, case["n"]) != 0}
+                "sign_weight": sum(g[0] for g in gens), "entangled_class": lc.orbit_of(gens, case["n"]) != 0,
+                "result_object": info.get("job", "?")}
 
 
 def shard(arg):
